@@ -274,6 +274,11 @@ def run_spec(arg):
             out["stats"] = E.stats
             return out
     out["stats"] = E.stats
+    if out["result"] == "holds":
+        U.validate_native(E, paths, lv, lambda vals: concrete_check(spec, spaced, vals, w), out, nmax=1)
+        if out["result"] == "violation":
+            c = out["cex"]
+            c.setdefault("expr", etext)
     return out
 
 
@@ -289,11 +294,12 @@ def concrete_check(spec, spaced, vals, w=None):
     bb = w["bb"]
     lv = skel.Leaves(values=vals)
     text, etext, info = render(spec, lv, spaced)
+    T.PyAlg.overflow = False
     try:
         ref, dom = reference(lv, etext, info, w["lang"], False)
     except Exception as e:  # noqa
         return "skip"
-    if not dom.ok or ref != ref:
+    if not dom.ok or ref != ref or T.PyAlg.overflow:
         return "skip"      # outside the property's domain
     if isinstance(ref, (float, complex)) and not U.finite(ref):
         return "skip"
